@@ -282,7 +282,7 @@ func runRound(c *sup.Child, b sup.Batch) {
 			}
 			bs := bufSizes(len(plain))
 			if big {
-				bs = []int{4096, len(plain) + 1}
+				bs = []int{4096, 4099, len(plain) + 1} // 4099: one Read, the rest through io.Copy
 			}
 			for _, bsz := range bs {
 				if len(plain) > 20000 && bsz < 7 {
